@@ -5,10 +5,12 @@
 //!   vnative replay FILE
 
 mod arena;
+mod asyncf;
 mod contain;
 mod count;
 mod crash;
 mod probe;
+mod sigs;
 mod interpose;
 mod snap;
 mod synth;
@@ -63,6 +65,20 @@ fn run_one(scv: &Value, sh: &Shared) -> Value {
             };
             run_contained(300, || crash::execute(&sc, sh))
         }
+        "async" => {
+            let sc: asyncf::AsyncScenario = match serde_json::from_value(scv.clone()) {
+                Ok(s) => s,
+                Err(e) => return json!({"invalid": format!("{e}")}),
+            };
+            run_contained(300, || asyncf::execute(&sc, sh))
+        }
+        "sigs" => {
+            let sc: sigs::SigScenario = match serde_json::from_value(scv.clone()) {
+                Ok(s) => s,
+                Err(e) => return json!({"invalid": format!("{e}")}),
+            };
+            run_contained(120, || sigs::execute(&sc, sh))
+        }
         "probe" => {
             let sc: probe::ProbeScenario = match serde_json::from_value(scv.clone()) {
                 Ok(s) => s,
@@ -77,6 +93,8 @@ fn run_one(scv: &Value, sh: &Shared) -> Value {
         ChildEnd::Signal(s) => {
             let v = match kind.as_str() {
                 "crash" => crash::signal_violation(s, sh),
+                "sigs" => json!({"tag": format!("died-with-signal[{}]", signal_name(s)), "props": ["C09"], "detail": format!("killed by {} in lifetime {}, item {}", signal_name(s), sh.get(1), sh.get(2))}),
+                "async" => json!({"tag": format!("died-with-signal[{}]", signal_name(s)), "props": ["C14"], "detail": format!("killed by {} in lifetime {}, op {} (phase {})", signal_name(s), sh.get(1), sh.get(2), sh.get(0))}),
                 "probe" => probe::signal_violation(s, sh, if scv["profile"] == "C10" { "C10" } else { "C13" }),
                 "count" => json!({"tag": format!("died-with-signal[{}]", signal_name(s)), "props": ["C06", "C05"], "detail": format!("killed by {} in lifetime {}, call {}", signal_name(s), sh.get(1), sh.get(2))}),
                 _ => synth::signal_violation(s, sh),
@@ -94,6 +112,8 @@ fn generate(family: &str, profile: &str, seed: u64, index: u64) -> Value {
         "count" => serde_json::to_value(count::generate(profile, seed, index)).unwrap(),
         "crash" => serde_json::to_value(crash::generate(profile, seed, index)).unwrap(),
         "probe" => serde_json::to_value(probe::generate(profile, seed, index)).unwrap(),
+        "sigs" => serde_json::to_value(sigs::generate(profile, seed, index)).unwrap(),
+        "async" => serde_json::to_value(asyncf::generate(profile, seed, index)).unwrap(),
         f => panic!("unknown family {f}"),
     }
 }
